@@ -162,6 +162,34 @@ def run(ctx, b, drv):
                 pcache.clear_inactive_cache(cdir)
             except Exception as e:
                 ctx.violation('C17:cleanup-raises-with-leftover-files:%s' % type(e).__name__, dict(kind='faults', exception=preds.crash_sig(e)))
+            # a writer killed in the middle of a save leaves ITS temporary file behind: learn the names the implementation really
+            # uses by watching one save, then plant leftovers under exactly these names (same process, same thread) and save again
+            import builtins as _bi
+            seen = []
+
+            def rec_open(p, mode='r', *a, **k):
+                if ('w' in mode or 'a' in mode or 'x' in mode) and str(p).startswith(str(cdir)):
+                    seen.append(str(p))
+                return _bi.open(p, mode, *a, **k)
+            pcache.open = rec_open
+            try:
+                if os.path.exists(ppath):
+                    os.remove(ppath)
+                pcache.parser_cache.clear()
+                parse_cached(g, path, cdir)
+            except Exception as e:
+                ctx.violation('C17:parse-raises-after-entry-removed:%s' % type(e).__name__, dict(kind='faults', exception=preds.crash_sig(e), module=code))
+            finally:
+                del pcache.open
+            for tname in sorted(set(seen) - {str(ppath)}):
+                for label, content in (('empty', b''), ('half', orig[:n // 2]), ('complete', orig), ('garbage', b'junk' * 10)):
+                    with open(tname, 'wb') as f:
+                        f.write(content)
+                    if os.path.exists(ppath):
+                        os.remove(ppath)
+                    check_state(ctx, g, path, code, cdir, ppath, 'leftover-own-temporary-file-%s' % label, fresh_sig, {})
+                    if os.path.exists(tname):
+                        os.remove(tname)
             shutil.rmtree(vdir)
             check_state(ctx, g, path, code, cdir, ppath, 'missing-version-directory', fresh_sig, {})
             shutil.rmtree(cdir)
